@@ -171,7 +171,12 @@ func (cx *Ctx) routes() []routeInfo {
 	var out []routeInfo
 	// CreateRouter: router.HandleFunc(path, handler) / router.Handle(path, handler)
 	if cr := w.Func("provider.CreateRouter"); cr != nil {
-		for _, c := range callsIn(cr) {
+		// (registration may sit in private pieces of CreateRouter: registerProbeRoutes(router, ...))
+		var regCalls []ssa.CallInstruction
+		for _, g := range cx.privateHelpers(cr) {
+			regCalls = append(regCalls, callsIn(g)...)
+		}
+		for _, c := range regCalls {
 			n := calleeName(c)
 			if n != "(*github.com/gorilla/mux.Router).HandleFunc" && n != "(*github.com/gorilla/mux.Router).Handle" {
 				continue
